@@ -32,6 +32,11 @@ def run(ctx, chk):
     chk.rule("M4", "exactly one backend notification per successful change")
     chk.rule("M5", "removal keyed by the request's guest address / size")
     run_on(fb, chk)
+    # the frontend side of "each byte backed by the passed file": region i is sent with descriptor i (C02/D9)
+    from vlint.report import Renamed
+    from . import c02
+    chk.rule("M6", "a memory table's regions and descriptors are only ever extended together on the sending side (C02/D9)")
+    c02.d9(fb, Renamed(chk, {"D9": "M6"}))
     n = lambda r: len([i for i in chk.instances if i[0] == r])
     chk.floor("M1", n("M1"), 3)
     chk.floor("M2", n("M2"), 6)
@@ -122,6 +127,13 @@ def run_on(fb, chk, tag=""):
             if cnt != 1:
                 probs.add("a success path notifies the backend %d times" % cnt)
         arg_ok = all("atomic_mem" in show(m.sym.arg_terms(bb)[1]) for bb, _t, _c in ups)
+        # the backend is told about the NEW table: the notification comes after the memory object was replaced
+        reps = [bb for bb, t, c in sites(f, name="replace") if "atomic_mem" in show(m.sym.arg_terms(bb)[0])]
+        dom_ = cfg.dominators()
+        stale = [ub for ub, _t, _c in ups if not any(rb in dom_.get(ub, ()) for rb in reps)]
+        chk.check(bool(reps) and not stale, "M4", tag + name + ":after-replace", "update_memory is dominated by atomic_mem.replace(new table)",
+                  "%s notifies the backend before the new memory table is installed: the backend is handed the previous table and is "
+                  "not notified again" % f.short, f.loc())
         chk.check(not probs and ups and arg_ok and (nok >= 1 or name == "set_mem_table"), "M4", tag + name,
                   "one update_memory(atomic_mem.clone()) on every success path",
                   "%s: %s%s" % (f.short, "; ".join(sorted(probs)) or "", "" if arg_ok else " notification does not pass the handler's memory handle"), f.loc())
